@@ -9,7 +9,7 @@ rsync -a --exclude .git --exclude .hypothesis --exclude __pycache__ /repo/ "$SCR
 if ! (cd "$SCR/repo" && patch -p1 -s < "$D/patch.diff"); then echo "PATCH FAILED"; rm -rf "$SCR"; exit 3; fi
 (cd "$SCR/repo" && PYTHONPATH="$SCR/repo" timeout 300 /venv/bin/python "$D/demo.py" >/dev/null 2>&1); echo "demo changed exit=$?"
 for pid in "$@"; do
-  out=$(cd /verif && SF_REPO="$SCR/repo" /venv/bin/python -m sfmon check "$pid" --tier quick 2>&1)
+  out=$(cd /verif && SF_REPO="$SCR/repo" SFMON_OUT="$SCR" /venv/bin/python -m sfmon check "$pid" --tier quick 2>&1)
   rc=$?
   echo "$pid rc=$rc violations=$(echo "$out" | grep -c '^VIOLATION'); $(echo "$out" | grep '^\[' | tail -1 | cut -c1-140)"
 done
